@@ -89,6 +89,14 @@ static void once_fn2(void){ int k = cur_body(); U("U_OnceBody", 1, VON(&onces[2]
   lock_(k, 3); critical(k, 3); unlock_(k, 3);
   U("U_OnceBodyEnd", 1, VON(&onces[2])); }
 
+/* an init routine that is a little program of its own (the operations of body once_body, which is never created as a
+   thread): it may create and join threads, lock, yield ... */
+static int once_body = 0;
+static int exec_op(int k, op_t *o, long *ret);
+static void once_fn3(void){ int k = cur_body(), i; long r_ = 0; U("U_OnceBody", 1, VON(&onces[3])); once_runs[3]++;
+  for (i = 0; once_body > 0 && i < bodies[once_body].n; i++) if (exec_op(k, &bodies[once_body].ops[i], &r_)) break;
+  U("U_OnceBodyEnd", 1, VON(&onces[3])); }
+
 static void *body_fn(void *a_){
   targ_t *a = a_; int k = a->k;
   U("U_BodyStart", 2, (long)k, a->tok);
@@ -312,7 +320,7 @@ static int exec_op(int k, op_t *o, long *ret){
           myth_verif_spin(98); yield_(k, myth_yield_option_local_first);
         }
         self_of[o->a] = 0; break; }
-    case OP_ONCE: U("U_OnceCall", 2, (long)k, ONID(o->a)); myth_once(&onces[o->a], o->a == 0 ? once_fn0 : o->a == 2 ? once_fn2 : once_fn1); U("U_OnceRet", 2, (long)k, ONID(o->a)); break;
+    case OP_ONCE: U("U_OnceCall", 2, (long)k, ONID(o->a)); myth_once(&onces[o->a], o->a == 0 ? once_fn0 : o->a == 2 ? once_fn2 : o->a == 3 ? once_fn3 : once_fn1); U("U_OnceRet", 2, (long)k, ONID(o->a)); break;
     case OP_FEWL: /* a = felock, b = status to wait for; c = 1: consume (count), 2: produce */
       U("U_FeWaitLockCall", 5, (long)k, FEID(o->a), (long)o->b, VMX(fes[o->a].mutex), VCV(&fes[o->a].cond[o->b]));
       myth_felock_wait_and_lock(&fes[o->a], o->b);
@@ -376,7 +384,7 @@ int main(int argc, char **argv){
   for (i = 0; i < MAXO; i++){ bar_n[i] = 2; jc_n[i] = 1; bufcap[i] = 1; }
   if (fscanf(fp, "%d", &nini) != 1) return 2;
   for (i = 0; i < nini; i++){ int kind, idx, n; if (fscanf(fp, "%d %d %d", &kind, &idx, &n) != 3) return 2;
-    if (kind == 1) bar_n[idx] = n; else if (kind == 2) jc_n[idx] = n; else if (kind == 3) bufcap[idx] = n; else if (kind == 4) ws_mode = n; else if (kind == 5) vstep_ms = n; else if (kind == 6) dexit_on = n; }
+    if (kind == 1) bar_n[idx] = n; else if (kind == 2) jc_n[idx] = n; else if (kind == 3) bufcap[idx] = n; else if (kind == 4) ws_mode = n; else if (kind == 5) vstep_ms = n; else if (kind == 6) dexit_on = n; else if (kind == 7) once_body = n; }
   for (i = 0; i < nbodies; i++){
     if (fscanf(fp, "%d", &bodies[i].n) != 1) return 2;
     bodies[i].ops = calloc(bodies[i].n + 1, sizeof(op_t));
